@@ -137,6 +137,10 @@ theorem exited_stays (c : Cfg) (g g' : St) (e : Ev) (hx : g.pc = .exited) (h : s
       obtain ⟨cg, _, rfl⟩ := h
       exact ⟨rfl, rfl⟩
     · split at h <;> simp at h; subst h; first | exact ⟨rfl, rfl⟩ | exact ⟨hx, rfl⟩
+  case nextGenRet m e =>
+    split at h
+    · rename_i hr; simp [returnsNow, hx] at hr
+    · simp at h
   all_goals (repeat' split at h)
   all_goals (first | (simp at h; done) | skip)
   all_goals (try (simp only [Option.some.injEq] at h))
